@@ -268,6 +268,10 @@ UNDECIDABLE_SEEDS = {
     "C07-j2": "one reader handle per chromosome file shared by the S pass and the L pass of the concatenation",
     "C10-j2": "the index offset carried in a local across the records instead of tell() before each write",
     "C10-j3": "offsets collected in a list and zipped with a lazily filtered record list after the loop",
+    # adversarial seeds of round 13 that take apart the construct the rule reads (answered exit 2)
+    "C05-g3": "region bounds taken as min / max of the split text fields instead of int(region[1]), int(region[2])",
+    "C08-g2": "the append to the scaffold-orientation list dedented out of the node loop",
+    "C09-g3": "tag parsing in add_node through partition / rpartition instead of split(':', 2)",
 }
 
 
